@@ -220,7 +220,12 @@ def run(job, mon):
                                                 if fast else ''), e)
           # fast motion through the warm-started approximate inverse amplifies
           # round-off (1.7e-8 observed on the unchanged tree): 1e-5 there
-          mon.check('rigid_transform:' + pname, e <= (1e-5 if fast else TOL),
+          # violent (but not yet "diverged") trajectories amplify round-off:
+          # the tolerance grows with the speed reached (1e-7 up to |qd| = 10)
+          vmax = float(np.abs(qda_).max()) if qda_.size else 0.0
+          tol_g = TOL * max(1.0, vmax / 10.0)
+          mon.check('rigid_transform:' + pname,
+                    e <= (max(1e-5, tol_g) if fast else tol_g),
                     lambda: dict(model=c, seed=job['seed'], pipeline=pname,
                                  nsteps=nsteps, xml=xml, q=q, qd=qd, ctrl=a,
                                  rotation=rot, translation=tr, err=e))
